@@ -70,7 +70,7 @@ def ns_optim_fft(ns):
     :param ns:
     :return: nsoptim
     """
-    p2, p3 = np.meshgrid(2 ** np.arange(25), 3 ** np.arange(15))
+    p2, p3 = np.meshgrid(2 ** np.arange(25), 3 ** np.arange(16))
     sz = np.unique((p2 * p3).flatten())
     return sz[np.searchsorted(sz, ns)]
 
